@@ -128,7 +128,7 @@ GLOBAL_BENIGN = [
 RENAME_ROBUST = {"C%02d" % i for i in range(1, 21)}
 
 
-def _filed(prop):
+def _filed(prop, own_only=False):
     """independently written changes filed under /verif/seeded (must fire for their target property) and behaviour-preserving
     refactorings filed under /verif/benign (every property must stay silent)"""
     import json
@@ -150,7 +150,7 @@ def _filed(prop):
                 # regression guard: every filed change its target property detected at the last re-evaluation must stay detected;
                 # the ones not detected yet are listed by tools/reeval_seeds.py as open work
                 out.append({"id": f"filed-change:{name}", "patch": pp, "expect": prop})
-            elif kind == "benign" and meta.get("suite_green") and meta.get("silent"):
+            elif kind == "benign" and meta.get("suite_green") and meta.get("silent") and (not own_only or f"-{prop}-" in name):
                 # regression guard: refactorings on which every property was silent at their last re-evaluation (tools/reeval_benign.py)
                 # must stay silent; the ones still raising an alarm are listed by that tool as open work, not replayed here
                 out.append({"id": f"filed-refactoring:{name}", "patch": pp, "expect": None})
@@ -267,10 +267,12 @@ def run_seeds(prop, seeds, src_root=None, workers=None):
         return list(ex.map(_one, [(prop, s, src_root) for s in seeds]))
 
 
-def run_for(prop, ctx=None):
+def run_for(prop, ctx=None, own_only=False):
+    """own_only (the thorough tier of one check): of the filed refactorings only those written against this property are replayed;
+    `./selftest` replays every filed refactoring against every property"""
     mod = importlib.import_module(f"nqsa.rules.{prop.lower()}")
     seeds = list(getattr(mod, "SEEDS", [])) + [dict(s, expect=None) for s in getattr(mod, "BENIGN", [])] + \
-        [g for g in GLOBAL_BENIGN if g["transform"] != "rename-locals" or prop in RENAME_ROBUST] + _filed(prop)
+        [g for g in GLOBAL_BENIGN if g["transform"] != "rename-locals" or prop in RENAME_ROBUST] + ([] if os.environ.get("NQSA_NO_FILED") else _filed(prop, own_only))
     res = run_seeds(prop, seeds)
     summary = {"seeds": len(seeds), "ok": 0, "skipped": 0, "failed": 0, "results": []}
     for sid, status, msg in res:
